@@ -105,7 +105,8 @@ def showState (s : St) (nw : Nat) : String :=
 `mx <maxKeys> <maxConns> <maxLife> <stale> <ops>`; ops: `o<k>` a delivery to domain `k` starts and sends its message
 (`pool.Get`, then MAIL/RCPT/DATA stamp the connection), `c` the oldest open delivery ends (`remoteDelivery.Close`:
 `pool.Return`), `t<d>` the clock moves, `b<c>` the server drops connection `c` (ignored while a delivery holds it),
-`k` `pool.CleanUp`, `s` `pool.Close`; `x<k>` a delivery to domain `k` whose context is cancelled (or times out) while
+`k` `pool.CleanUp`, `s` `pool.Close`; `a` the oldest open delivery is aborted (the same `remoteDelivery.Close`); `r<j>` a
+`Target.Start` that the message limits refuse (no pool call at all; `j` = which limit / how the context ended); `x<k>` a delivery to domain `k` whose context is cancelled (or times out) while
 `pool.Get` waits for the answer of the next hop to the RSET by which it probes a pooled connection — the first time
 the worker is parked in `Usable()` with a connection the server has not dropped, the schedule takes `cancel`; when no
 such connection is probed the context stays live and the delivery is an ordinary one.  A delivery that fails (`E`:
@@ -113,17 +114,19 @@ no pooled connection left and the dial under the dead context fails) holds nothi
 the shutdown; every call runs to completion, and the `go conn.Close()` goroutines run right away. -/
 
 inductive MxOp
-  | open_ (k : Nat) | openx (k : Nat) | commit | tick (d : Nat) | brk (c : Nat) | sweep | shut
+  | open_ (k : Nat) | openx (k : Nat) | commit | abort | refused (j : Nat) | tick (d : Nat) | brk (c : Nat) | sweep | shut
 
 def parseMxOp (s : String) : Option MxOp :=
   match s.toList with
   | ['c'] => some .commit
+  | ['a'] => some .abort
   | ['k'] => some .sweep
   | ['s'] => some .shut
   | 'o' :: rest => (String.ofList rest).toNat?.map MxOp.open_
   | 'x' :: rest => (String.ofList rest).toNat?.map MxOp.openx
   | 't' :: rest => (String.ofList rest).toNat?.map MxOp.tick
   | 'b' :: rest => (String.ofList rest).toNat?.map MxOp.brk
+  | 'r' :: rest => (String.ofList rest).toNat?.map MxOp.refused
   | _ => none
 
 /-- run goroutine `i` until it is back at `idle` (or finished, or cannot move) -/
@@ -188,6 +191,14 @@ def mxStep (m : MxSt) : MxOp → MxSt
     match m.openQ with
     | [] => { m with out := "-" :: m.out }
     | j :: rest => { m with s := settle (runCall m.s j 200) m.n0, openQ := rest, out := "c" :: m.out }
+  | .abort =>
+    -- `remoteDelivery.Abort` is `remoteDelivery.Close`, as `Commit` is: the connection goes back to the pool
+    match m.openQ with
+    | [] => { m with out := "-" :: m.out }
+    | j :: rest => { m with s := settle (runCall m.s j 200) m.n0, openQ := rest, out := "a" :: m.out }
+  -- a `Target.Start` refused by the message limits (limit not obtained before the caller's context ended): no delivery
+  -- exists, no pool call is made — the pool state is what it was
+  | .refused _ => { m with out := "R" :: m.out }
   | .tick d => { m with s := next m.s (.tick d), out := "t" :: m.out }
   | .brk c =>
     if c < m.s.fresh ∧ ¬ heldBy m.s c then { m with s := next m.s (.brk c), out := "b" :: m.out }
